@@ -21,7 +21,9 @@ def status_ok(tool_, rc):
 
 def classify(tool_, argv, rc, out):
     """None if fine, else (kind, text)"""
-    if rc == 'TIMEOUT' and '[output flood' in out:
+    _m = re.search(r'\[output shortened, (\d+) bytes in total\]', out) if rc == 'TIMEOUT' else None
+    if rc == 'TIMEOUT' and ('[output flood' in out or (_m and int(_m.group(1)) > (8 << 20))):
+        # (also when the limit was not reached but megabytes of messages had been printed when the time ran out: the tool was busy reporting, not stuck)
         # tens of megabytes of messages (one per block of a range that a corrupt pointer or count makes millions of blocks long): the run is cut there.  It is
         # neither a crash nor shown to be a hang; the case is counted as inconclusive (evidence: output_floods) and nothing is claimed for it
         FLOODS.append(' '.join(os.path.basename(a) for a in argv[:3]))
